@@ -312,6 +312,10 @@ from contracts import C02_ukv_map as C02
 P.include(C02.P, ["backend.flush/get with a doomed queued write", "backend.update_keys", "backend.get[every-listed-key-is-readable]",
                   "molli.storage.ukvfile:UKVFile.map_blocks", "reopen of a clean file"],
           why="a failed session leaves nothing behind for the next one; the index is refreshed at session begin")
+# "a reader sees only complete records": the session's index refresh over a file whose last record is torn (an interrupted writer)
+from contracts import C03_crash as C03
+P.include(C03.P, ["map_blocks[crash-image]", "map_blocks[any-file]", "open[recover]"],
+          why="a reading session that begins after an interrupted writer lists only the complete records")
 
 
 # ------------------------------------------------------------------------------------------ which lock guards which file
